@@ -66,16 +66,20 @@ def read_tlv(memory, offset, skip_bytes):
     if tlv_t in (0x00, 0xFE):
         return (tlv_t, -1, None)
 
-    tlv_l, offset = (memory[offset], offset+1)
+    try:
+        tlv_l, offset = (memory[offset], offset+1)
 
-    if tlv_l == 0xFF:
-        tlv_l, offset = (unpack(">H", memory[offset:offset+2])[0], offset+2)
+        if tlv_l == 0xFF:
+            tlv_l, offset = (unpack(">H", memory[offset:offset+2])[0],
+                             offset+2)
 
-    tlv_v = bytearray(tlv_l)
-    for i in range(tlv_l):
-        while (offset + i) in skip_bytes:
-            offset += 1
-        tlv_v[i] = memory[offset+i]
+        tlv_v = bytearray(tlv_l)
+        for i in range(tlv_l):
+            while (offset + i) in skip_bytes:
+                offset += 1
+            tlv_v[i] = memory[offset+i]
+    except Type1TagCommandError:
+        return (None, None, None)
 
     return (tlv_t, tlv_l, tlv_v)
 
@@ -532,6 +536,9 @@ class Type1TagMemoryReader(object):
             self._data_in_cache[120:128] = read_block_response
 
         while len(self) < stop:
+            if len(self) >> 7 > 15:
+                # beyond the address space of a type 1 tag
+                raise Type1TagCommandError(RESPONSE_ERROR)
             data = self._tag.read_segment(len(self) >> 7)
             self._data_from_tag.extend(data)
             self._data_in_cache.extend(data)
